@@ -43,7 +43,11 @@ ATOMS = {
     "meta": '<text:meta>%s</text:meta>',
 }
 CONTAINERS = ("span", "a", "note", "tbox", "ruby", "ann", "meta")
-TEXTS = ["", "a", " ", "b ", " c", "  ", "d  e"]
+# plain text pieces; the second group: characters Python's str.strip()/isspace() treat as blank but XML / ODF do not
+# (NO-BREAK SPACE, EM SPACE, IDEOGRAPHIC SPACE, LINE SEPARATOR, NEXT LINE), alone and next to real white space
+TEXTS = ["", "a", " ", "b ", " c", "  ", "d  e",
+         "\u00a0", "\u2003", "\u3000", "\u2028", "\u0085", " \u00a0", "\u00a0 ", "\u00a0\u00a0", "é\u00a0", "\t", "\n", " \n "]
+BLANKISH = ["\u00a0", "\u2003", "\u3000", "\u2028", "\u0085", " \u00a0", "\u00a0 ", " ", "\n  ", "\t"]
 
 
 def atom(kind, inner=""):
@@ -68,6 +72,12 @@ def gen_pars(tier, rng):
         for mid in ("", "m", " "):
             for pre, post in (("a", "b"), ("", "")):
                 out.append(par(pre + atom(x, "i") + mid + atom(y, "j") + post, "h" if (len(out) % 7 == 0) else "p"))
+    # blank-looking character data in every position around every element kind: before, between, after (= tail of the last child)
+    for x in kinds:
+        for b in BLANKISH:
+            out.append(par(atom(x, "i") + b))
+            out.append(par(b + atom(x, "i")))
+            out.append(par("a" + atom(x, b) + b + atom("s") + b, "h" if len(out) % 5 == 0 else "p"))
     # inside inline containers
     for c in ("span", "a", "meta"):
         for x in kinds:
